@@ -274,7 +274,7 @@ async fn client(env: Rc<Env>, shared: super::SharedRc, socket_style: bool, lines
     }
 }
 
-fn gen_line(r: &mut Rng) -> String {
+pub fn gen_line(r: &mut Rng) -> String {
     let id = match r.below(9) {
         0 => String::new(),
         1 => r#","id":null"#.to_string(),
@@ -289,7 +289,28 @@ fn gen_line(r: &mut Rng) -> String {
     let ms = [
         "0", "1", "999", "1000", "1001", "5000", "59999", "60000", "60001", "18446744073709551615", "18446744073709551616", "-1", "2.5", "\"5000\"", "null", "true", "[]", "1e3",
     ];
-    let body = match r.below(22) {
+    // caller-supplied names of any length and any mix of 1..4-byte characters (they end up
+    // quoted in error messages)
+    let long_name = |r: &mut Rng| -> String {
+        let target = match r.below(4) {
+            0 => r.range(1, 40),
+            1 => r.range(100, 140),
+            2 => r.range(120, 136),
+            _ => r.range(200, 600),
+        } as usize;
+        let mut s = String::new();
+        while s.len() < target {
+            s.push(*r.pick(&['a', 'Z', '_', '.', 'é', 'ß', '€', '語', '😀', ' ']));
+        }
+        s
+    };
+    let body = match r.below(25) {
+        22 => format!(r#""method":"{}""#, long_name(r)),
+        23 => format!(r#""method":"set_mode","params":{{"mode":"{}"}}"#, long_name(r)),
+        24 => match r.below(2) {
+            0 => format!(r#""method":"subscribe","params":{{"topic":"{}"}}"#, long_name(r)),
+            _ => format!(r#""method":"unsubscribe","params":{{"subscription_id":"{}"}}"#, long_name(r)),
+        },
         0 | 1 => format!(r#""method":"set_mode","params":{{"mode":"{}"}}"#, r.pick(&["classic", "enhanced", "Classic", "", "edpf"])),
         2 => format!(r#""method":"set_mode","params":{{"mode":{}}}"#, r.pick(&["1", "null", "[\"classic\"]"])),
         3 | 4 => format!(r#""method":"set_quality","params":{{"enabled":{}}}"#, r.pick(&["true", "false", "1", "\"true\"", "null"])),
